@@ -47,7 +47,7 @@ def break_ties(scn, rng):
 
 class C04(Prop):
     id = 'C04'
-    quick_runs = 2200
+    quick_runs = 4000
     thorough_runs = 60000
     chunk = 16
     rule = ('one case = one generated world with 1-6 time controls and time rules on 1-3 targets (pipe/pump status, valve setting): AT TIME '
